@@ -4,10 +4,11 @@ tornado.queues classes over a virtual loop against mc.syncmodel.RefQueue."""
 from mc.core import Check
 from mc import syncmodel
 
-OPS = [("put", 1, None), ("put", 0, "td"), ("put", 2, None), ("put_nowait", 3), ("put_nowait", 0),
+OPS = [("put", 1, None), ("put", 0, "td"), ("put", 2, None), ("put", 4, "zero"), ("put_nowait", 3), ("put_nowait", 0),
        ("get", None), ("get", "td"), ("get", "zero"), ("get_nowait",), ("task_done",), ("join", None), ("join", "td"),
        ("cancel", 0), ("cancel", -1), ("adv",)]
 KINDS = ("fifo", "lifo", "prio")
+BURST_OPS = [("put_nowait", 3), ("get_nowait",), ("task_done",), ("join", None)]
 
 
 class C35(Check):
@@ -19,7 +20,8 @@ class C35(Check):
             "(queue contents, getter/putter deques with done flags, unfinished count, join event, remaining "
             "times, loop timers); after every op every future, qsize/empty/full and raises are compared with "
             "the reference (conservation, ordering, arrival-order service, no effect of dead operations, join "
-            "iff puts = task_dones); non-trivial = states with a pending future or reached through "
+            "iff puts = task_dones); plus every burst of 2..6 (thorough 7) operations from {put_nowait, get_nowait, task_done, "
+            "join} executed within one loop iteration after at most one prefix operation; non-trivial = states with a pending future or reached through "
             "cancel/advance")
     claim = ("Every history within the bound is executed on the real queue; step-wise agreement with the "
              "sequential reference implies the statement. For LIFO/priority queues a get that meets a blocked "
@@ -33,17 +35,25 @@ class C35(Check):
 
     def partitions(self, tier):
         sizes = (0, 1, 2) if tier == "quick" else (0, 1, 2, 3)
-        return [(("queue", k, m), i) for k in KINDS for m in sizes for i in range(len(OPS))]
+        parts = [(("queue", k, m), i) for k in KINDS for m in sizes for i in range(len(OPS))]
+        # several operations inside one loop iteration (the loop does not run between them)
+        bk = ("fifo",) if tier == "quick" else KINDS
+        parts += [(("queue", k, m), ("burst", j, 8)) for k in bk for m in sizes for j in range(8)]
+        return parts
 
     def run_partition(self, part, tier, st):
         spec, i = part
+        if isinstance(i, tuple):
+            pol = ("insert_then_get",) if spec[1] == "fifo" else ("insert_then_get", "get_then_insert")
+            syncmodel.burst_family(spec, OPS, BURST_OPS, 6 if tier == "quick" else 7, st, policies=pol, part=(i[1], i[2]))
+            return
         pol = ("insert_then_get",) if spec[1] == "fifo" else ("insert_then_get", "get_then_insert")
         syncmodel.bfs(spec, OPS, [OPS[i]], self.depth(tier), st, policies=pol)
         st.setmax("depth", self.depth(tier))
 
     def replay(self, case):
         spec = tuple(case["spec"])
-        hist = tuple(tuple(o) for o in case["hist"])
+        hist = tuple(tuple(o) if o[0] != "burst" else ("burst", tuple(tuple(x) for x in o[1])) for o in case["hist"])
         out = []
         for pol in ("insert_then_get", "get_then_insert"):
             try:
